@@ -9,10 +9,14 @@ package checks
 // Oracle: the strict nfsx decoder for the program, procedure and status sent.
 
 import (
+	"context"
 	"errors"
 	"fmt"
+	"io"
+	"os"
 	"strings"
 	"sync"
+	"syscall"
 	"testing"
 	"time"
 
@@ -33,6 +37,19 @@ type c14Req struct {
 	Shape string `json:"shape"` // ok trunc random long
 	Cut   int    `json:"cut"`
 	Rnd   []byte `json:"rnd,omitempty"`
+	// state "faulty": the FaultAt-th backend call this request causes fails with c14Faults[FaultErr] (0: none)
+	FaultAt  int `json:"fault_at,omitempty"`
+	FaultErr int `json:"fault_err,omitempty"`
+}
+
+// c14Faults are the errors a backend may return: errno values, the os sentinel errors, an expired deadline
+// as a network-backed filesystem reports it, and an opaque error.
+var c14Faults = []error{
+	syscall.EIO, syscall.EACCES, syscall.EPERM, syscall.ENOENT, syscall.EEXIST, syscall.ENOTDIR, syscall.EISDIR, syscall.EINVAL,
+	syscall.ENOSPC, syscall.EFBIG, syscall.ENAMETOOLONG, syscall.ENOTEMPTY, syscall.EROFS, syscall.EXDEV, syscall.EMLINK, syscall.EDQUOT,
+	syscall.ESTALE, syscall.ETIMEDOUT, syscall.EBUSY, syscall.ELOOP, syscall.ENXIO, syscall.EAGAIN,
+	os.ErrNotExist, os.ErrExist, os.ErrPermission, os.ErrInvalid, os.ErrClosed, os.ErrDeadlineExceeded, io.ErrUnexpectedEOF, io.EOF,
+	fmt.Errorf("backend request: %w", context.DeadlineExceeded), context.Canceled, absnfs.ErrTimeout, errors.New("opaque backend failure"),
 }
 
 type c14Case struct {
@@ -41,7 +58,7 @@ type c14Case struct {
 }
 
 func genC14(t *rapid.T) c14Case {
-	c := c14Case{State: pick(t, "state", "normal", "normal", "readonly", "ratelimited", "drain", "connlimited")}
+	c := c14Case{State: pick(t, "state", "normal", "normal", "readonly", "ratelimited", "drain", "connlimited", "faulty", "faulty")}
 	n := rapid.IntRange(1, 12).Draw(t, "n")
 	for i := 0; i < n; i++ {
 		r := c14Req{
@@ -57,6 +74,18 @@ func genC14(t *rapid.T) c14Case {
 		r.Cut = rapid.IntRange(0, 14).Draw(t, "cut")
 		if r.Shape == "random" {
 			r.Rnd = rapid.SliceOfN(rapid.Byte(), 0, 48).Draw(t, "rnd")
+		}
+		if c.State == "faulty" {
+			r.Shape = pick(t, "fshape", "ok", "ok", "ok", r.Shape)
+			r.FaultAt = pick(t, "fault_at", 1, 1, 1, 2, 2, 3, 4, 5, 7)
+			if rapid.IntRange(0, 9).Draw(t, "fprog") < 8 {
+				r.Prog, r.Vers = nfsx.ProgNFS, 3
+				r.Proc = uint32(rapid.IntRange(1, 21).Draw(t, "fproc"))
+				if rapid.IntRange(0, 5).Draw(t, "fmnt") == 0 {
+					r.Prog, r.Proc = nfsx.ProgMount, nfsx.MountMnt
+				}
+			}
+			r.FaultErr = rapid.IntRange(0, len(c14Faults)-1).Draw(t, "fault_err")
 		}
 		c.Reqs = append(c.Reqs, r)
 	}
@@ -186,7 +215,14 @@ func runC14(tb stat.TB, c c14Case) {
 		opts.TransferSize = 1 << 20
 	}
 	opts.Timeouts = drv.FastTimeouts(5 * time.Second)
-	s := newSession(tb, v, opts)
+	var faulty *vfs.Faulty
+	var s *session
+	if c.State == "faulty" {
+		faulty = vfs.NewFaulty(v)
+		s = newSessionOn(tb, faulty, v, opts)
+	} else {
+		s = newSession(tb, v, opts)
+	}
 	defer s.close()
 	var h c14H
 	nt := false
@@ -305,6 +341,23 @@ func runC14(tb stat.TB, c c14Case) {
 			case "long":
 				args = append(args, make([]byte, 4*r.Cut+4)...)
 			}
+			if faulty != nil {
+				at, ferr := r.FaultAt, c14Faults[r.FaultErr%len(c14Faults)]
+				faulty.Arm(func(op string, paths []string, n int) error {
+					if n != at {
+						return nil
+					}
+					stat.Label("backend_fault_injected", 1)
+					p := ""
+					if len(paths) > 0 {
+						p = paths[0]
+					}
+					if n%2 == 0 {
+						return ferr // bare error
+					}
+					return &os.PathError{Op: strings.ToLower(op), Path: p, Err: ferr}
+				})
+			}
 			xid := s.e.NextXid()
 			cl := drv.Root()
 			msg := nfsx.Call(xid, r.Prog, r.Vers, r.Proc, cl.Cred, nfsx.AuthNone(), args)
@@ -331,7 +384,11 @@ func runC14(tb stat.TB, c c14Case) {
 				}
 				tb.Fatalf("harness: %v", err)
 			}
-			if judge(wire, xid, r, "HandleCall") {
+			via := "HandleCall"
+			if faulty != nil && r.FaultAt > 0 && faulty.Count() >= r.FaultAt {
+				via = fmt.Sprintf("HandleCall, backend call #%d of the request failed with %q", r.FaultAt, c14Faults[r.FaultErr%len(c14Faults)])
+			}
+			if judge(wire, xid, r, via) {
 				return
 			}
 		}
